@@ -773,6 +773,15 @@ func (g *G) Expr(c schema.Constraint, depth int, locals []Decl) *E {
 				o.Kids = append(o.Kids, g.Expr(a.Constraint, depth-1, locals))
 			}
 		}
+		// an item whose key is computed (the schema cannot tell which attribute it is)
+		if c.AllowInterpolatedKeys && !g.O.Simple && len(o.Keys) > 0 && g.coin(0.35) {
+			if g.coin(0.5) {
+				o.Keys = append(o.Keys, "("+g.refTo(locals, "", cty.String)+")")
+			} else {
+				o.Keys = append(o.Keys, "\"${"+g.refTo(locals, "", cty.String)+"}-x\"")
+			}
+			o.Kids = append(o.Kids, lit(cty.NumberIntVal(42)))
+		}
 		return o
 	case schema.OneOf:
 		if len(c) == 0 {
